@@ -727,8 +727,8 @@ func (x *Exec) escapeTerm(st *State, text string) {
 
 // defMentions: text is a defined name whose definition mentions sym (one level is enough for boxed pointers).
 func (x *Exec) defMentions(st *State, text, sym string) bool {
-	if strings.ContainsAny(text, " (") {
-		return false
+	if strings.ContainsAny(text, " (") || strings.HasPrefix(text, "alloc!") || strings.HasPrefix(text, "alloc0!") {
+		return false // allocation counters are defined from one another; that is not a reference
 	}
 	pfx := "(define-fun " + text + " "
 	for i := len(st.defs) - 1; i >= 0; i-- {
